@@ -679,6 +679,7 @@ func cmdCheck(args []string) int {
 		// a natively reproduced violation does not depend on the engine; the disagreement is still shown
 		fmt.Printf("NOTE: property=%s engine/native disagreement on a sampled path: %s\n", id, engineFault)
 	}
+	os.RemoveAll(filepath.Join(verifRoot, "work", id, "violations")) // never leave stale witnesses of an earlier run
 	if len(reported) > 0 {
 		vdir := filepath.Join(verifRoot, "work", id, "violations")
 		os.MkdirAll(vdir, 0755)
